@@ -31,7 +31,7 @@ use crate::backup::{get_backup_path, needs_backup};
 use crate::config::{Config, Reflink};
 use crate::errors::{Result, XcpError};
 use crate::feedback::{StatusUpdate, StatusUpdater};
-use crate::paths::{parse_ignore, ignore_filter};
+use crate::paths::{names_contents, parse_ignore, ignore_filter};
 
 #[derive(Debug)]
 pub struct CopyHandle {
@@ -199,7 +199,10 @@ pub fn tree_walker(
             .next_back()
             .ok_or(XcpError::InvalidSource("Failed to find source directory name."))?;
 
-        let target_base = if is_dir(dest)? && !config.no_target_directory {
+        // As with cp, a source spelled `dir/.` or `dir/..` stands
+        // for that directory's contents and maps onto the
+        // destination itself, never onto `dest/..`.
+        let target_base = if is_dir(dest)? && !config.no_target_directory && !names_contents(&source) {
             dest.join(sourcedir)
         } else {
             dest.to_path_buf()
